@@ -64,7 +64,13 @@ impl DeltaId {
     }
 
     pub fn new_from_anchors(digest: String, anchors: &BTreeSet<DeltaId>) -> DeltaId {
-        let idx = anchors.iter().map(|a| a.index()).max().unwrap_or(0) + 1;
+        // (saturating: a parent with the highest possible index yields an identifier that matches no block)
+        let idx = anchors
+            .iter()
+            .map(|a| a.index())
+            .max()
+            .unwrap_or(0)
+            .saturating_add(1);
         DeltaId(idx, digest)
     }
 
